@@ -1106,6 +1106,45 @@ Proof.
     rewrite Hx. reflexivity.
 Qed.
 
+(* "starts with", spelled out: the prefix test is literal string extension, character for character
+   (no trimming of a trailing '/', no case folding, no URL normalisation on either side) *)
+Lemma prefix_app p : forall s, String.prefix p s = true <-> exists r, s = (p ++ r)%string.
+Proof.
+  induction p as [|a p IH]; intros s.
+  - destruct s; cbn; (split; [intros _; eexists; reflexivity | reflexivity]).
+  - destruct s as [|b s]; cbn [String.prefix String.append].
+    + split; [discriminate | intros [r H]; discriminate].
+    + destruct (Ascii.ascii_dec a b) as [->|N].
+      * rewrite IH. split; intros [r H]; exists r; [rewrite H; reflexivity | injection H; auto].
+      * split; [discriminate | intros [r H]; injection H; intros; congruence].
+Qed.
+
+(* an approved return URL IS a registered discovery-response location followed by some rest *)
+Lemma disco_approved_extends m eid url :
+  verify_return m eid url = Approved true ->
+  exists loc rest, registers_disco m eid loc /\ url = (loc ++ rest)%string.
+Proof.
+  intros H. pose proof (disco_sound m eid url) as S. cbn [spec] in S. rewrite H in S.
+  destruct S as [loc [Hr Hp]]. apply prefix_app in Hp as [rest ->]. exists loc, rest. split; [exact Hr|reflexivity].
+Qed.
+
+(* ... so a URL that is no such extension (a look-alike of a registered location: its slash-less,
+   case-changed, re-encoded, otherwise normalised form continued by anything) is never approved *)
+Lemma disco_lookalike_refused m eid url :
+  (forall loc rest, registers_disco m eid loc -> url <> (loc ++ rest)%string) ->
+  verify_return m eid url <> Approved true.
+Proof.
+  intros Hn H. destruct (disco_approved_extends _ _ _ H) as [loc [rest [Hr He]]]. exact (Hn loc rest Hr He).
+Qed.
+
+(* the spec alone says the same of any observed verdict *)
+Lemma spec_disco_extends m eid url :
+  spec m (OpDisco eid url) (Approved true) ->
+  exists loc rest, registers_disco m eid loc /\ url = (loc ++ rest)%string.
+Proof.
+  cbn [spec]. intros [loc [Hr Hp]]. apply prefix_app in Hp as [rest ->]. exists loc, rest. split; [exact Hr|reflexivity].
+Qed.
+
 (* ---------------------------------------------------------------- non-vacuity *)
 Definition ex_sp : string * entity :=
   ("https://sp.example.org/sp.xml",
@@ -1168,6 +1207,21 @@ Proof. vm_compute. reflexivity. Qed.
    This is what the property text asks for; see notes/C08.md (hardening remark, not a finding). *)
 Example ex_disco_prefix_is_literal :
   verify_return ex_md "https://sp.example.org/sp.xml" "https://sp.example.org/disco.evil.com/" = Approved true.
+Proof. vm_compute. reflexivity. Qed.
+
+(* the trailing slash of a registered location is significant: a site root / directory-style
+   registration approves neither its slash-less form nor what continues that form *)
+Definition ex_md_slash : md :=
+  [[("https://sp.example.org/sp.xml",
+     [(R_SP, Desc [(S_ACS, EPt B_POST "https://sp.example.org/acs/post" (Some "1") None)]
+                  [(B_DISCO, "https://sp.example.org/"); (B_DISCO, "https://sp.example.org/Shibboleth.sso/")])])]].
+Example ex_disco_slash_significant :
+  map (fun u => verify_return ex_md_slash "https://sp.example.org/sp.xml" u)
+      ["https://sp.example.org/x?y"; "https://sp.example.org/Shibboleth.sso/Login";
+       "https://sp.example.org"; "https://sp.example.org.evil.example/"; "https://sp.example.org@evil.example/";
+       "https://sp.example.org:8443/"; "HTTPS://SP.EXAMPLE.ORG/"; "https://sp.example.org%2F"]
+  = [Approved true; Approved true; Approved false; Approved false; Approved false; Approved false; Approved false;
+     Approved false].
 Proof. vm_compute. reflexivity. Qed.
 
 (* first source wins (d8b1d2a4): the same entityID in two sources; the Artifact consumer service
